@@ -12,7 +12,7 @@ for d in sorted(glob.glob(os.path.join(V, 'seeded', '*'))):
     m = json.load(open(os.path.join(d, 'meta.json')))
     e = m.get('evaluation', {})
     name = os.path.basename(d)
-    rnd = 1 if int(name.split('-')[1]) <= 2 else 2
+    rnd = (int(name.split('-')[1]) + 1) // 2
     summ = ' '.join(str(m.get('summary', '')).split())[:150].replace('|', '/')
     cb = e.get('caught_by') or []
     cc = e.get('caught_with_concrete_input') or []
